@@ -718,7 +718,30 @@ fn judge_estimate(st: &St, lower: i32, upper: i32, max_a: u64, max_b: u64, u: &U
     let mut out = EstOutcome { res, next_is_error: false, next_exceeds: false };
     let l = match res {
         EstRes::Ok(l) => l,
-        _ => return Ok(out), // failed computations are not constrained
+        _ => {
+            // Failed computations are not constrained — except in the small-budget box: with both maxima below 2^40 every
+            // intermediate product of the estimate stays far below the widths the program uses (max * sqrt-price < 2^137 is the
+            // only wide product and is held in 256 bits), so no overflow exit can apply; the statement's "the result is the
+            // largest liquidity whose cost fits both maxima" then has a well-defined value (`best`), and the
+            // quantifier names these prices explicitly ("including exactly on a range bound and the shifted-tick state"). A
+            // failure here is a wrong result, not an unconstrained computation. (Pinned tree: 0 such failures; all 19 572
+            // failing estimates of the quick alphabet have a maximum above 2^63.)
+            if max_a < (1u64 << 40) && max_b < (1u64 << 40) {
+                let (la, lb) = (largest_fitting(&u.ua, max_a), largest_fitting(&u.ub, max_b));
+                // each side's own budget must also be far from the u128 limit (the program computes both sides before taking the
+                // minimum, and one unit of token A next to the upper bound of a high-priced range buys more than 2^128 liquidity)
+                let sides_small = la.iter().chain(lb.iter()).all(|x| x.bits() < 120);
+                let best = match (la, lb) {
+                    (Some(x), Some(y)) => Some(x.min(y)),
+                    (x, None) => x,
+                    (None, y) => y,
+                };
+                if let Some(b) = best.filter(|_| sides_small) {
+                    return Err(format!("liquidity from token maxima fails ({res:?}) although both maxima are below 2^40 and the largest liquidity whose cost fits them is {b}"));
+                }
+            }
+            return Ok(out);
+        }
     };
     let (ma, mb) = (BigUint::from(max_a), BigUint::from(max_b));
     let lb = bu(l);
